@@ -392,7 +392,7 @@ Section Order.
   Let f (k : bytes) : N * bytes := (pos k, sg k).
   Let pair (k : bytes) : bytes * bytes := (k, sg k).
 
-  Lemma positions_eq pks : (forall k, In k pks -> bindex_of k script = Some (pos k)) ->
+  Lemma positions_eq pks : (forall k, In k pks -> key_position script k = Some (pos k)) ->
     positions script (map pair pks) = Some (map f pks).
   Proof.
     induction pks as [|k pks IH]; intro H; cbn [map positions]; [reflexivity|].
@@ -453,7 +453,7 @@ Section Order.
      whatever the order of the partial signatures *)
   Lemma extract_key_order_sorted keys n m pks :
     ms_stats script = Some (n, m) -> m = lenL pks ->
-    (forall k, In k keys -> bindex_of k script = Some (pos k)) ->
+    (forall k, In k keys -> key_position script k = Some (pos k)) ->
     StronglySorted N.lt (map pos keys) -> NoDup pks -> incl pks keys ->
     extract_key_order script (map pair pks) = Some (map sg (filter (memb pks) keys)).
   Proof.
@@ -586,24 +586,77 @@ Proof.
   destruct (l ++ [x]) eqn:E; [destruct l; discriminate | reflexivity].
 Qed.
 
-(* the key set of a multisig script is unambiguous when every key's first occurrence in the
-   script is strictly after the first occurrence of the key before it *)
+(* key positions (offsets of the pushes) are strictly increasing along the keys of the script *)
 Definition unambiguous (script : bytes) (keys : list bytes) : Prop :=
   exists pos : bytes -> N,
-    (forall k, In k keys -> bindex_of k script = Some (pos k)) /\ StronglySorted N.lt (map pos keys).
+    (forall k, In k keys -> key_position script k = Some (pos k)) /\ StronglySorted N.lt (map pos keys).
 
-Lemma unambiguous_nodup script keys : unambiguous script keys -> NoDup keys.
+(* offset of the push of k among the pushes of keys, the first of which starts at off *)
+Fixpoint key_off (keys : list bytes) (k : bytes) (off : N) : N :=
+  match keys with
+  | [] => off
+  | x :: r => if bytes_eqb x k then off else key_off r k (off + 1 + lenN x)
+  end.
+
+Lemma key_tok_push x : wf_key x -> is_push_op (fst (key_tok x)) = true /\ tok_size (key_tok x) = 1 + lenN x.
 Proof.
-  intros (pos & _ & Hs). induction keys as [|k r IH]; [constructor|].
-  constructor; [apply (sorted_pos_notin pos (fun x => x) k r Hs)|].
-  apply IH. cbn [map] in Hs. apply StronglySorted_inv in Hs as [Hs _]. exact Hs.
+  intros [H | H]; unfold key_tok, is_push_op, tok_size; cbn [fst snd]; rewrite H; split; reflexivity.
+Qed.
+
+Lemma push_index_keys k rest : forall keys off, Forall wf_key keys -> In k keys ->
+  push_index k (map key_tok keys ++ rest) off = Some (key_off keys k off).
+Proof.
+  induction keys as [|x r IH]; intros off Hk Hin; [destruct Hin|].
+  inversion Hk as [|? ? Hx Hr]; subst.
+  destruct (key_tok_push x Hx) as [Hp Hs].
+  cbn [map app push_index key_off]. unfold key_tok at 1. unfold key_tok in Hp. cbn [fst] in Hp. rewrite Hp. cbn [andb].
+  destruct (bytes_eqb x k) eqn:E; [reflexivity|].
+  destruct Hin as [->|Hin]; [rewrite bytes_eqb_refl in E; discriminate|].
+  fold (key_tok x). rewrite Hs. rewrite IH by assumption. f_equal. f_equal. lia.
+Qed.
+
+Lemma key_off_ge keys k : forall off, off <= key_off keys k off.
+Proof.
+  induction keys as [|x r IH]; intro off; cbn [key_off]; [lia|].
+  destruct (bytes_eqb x k); [lia|]. specialize (IH (off + 1 + lenN x)). lia.
+Qed.
+
+Lemma key_off_sorted : forall keys off, NoDup keys ->
+  StronglySorted N.lt (map (fun k => key_off keys k off) keys).
+Proof.
+  induction keys as [|x r IH]; intros off Hnd; [constructor|].
+  inversion Hnd as [|? ? Hx Hr]; subst. cbn [map].
+  assert (E : map (fun k => key_off (x :: r) k off) r = map (fun k => key_off r k (off + 1 + lenN x)) r).
+  { apply map_ext_in. intros k Hk. cbn [key_off].
+    destruct (bytes_eqb x k) eqn:Ex; [|reflexivity]. apply bytes_eqb_eq in Ex. subst k. contradiction. }
+  rewrite E. constructor; [apply IH; exact Hr|].
+  apply Forall_forall. intros y Hy. apply in_map_iff in Hy as (k & <- & Hk).
+  cbn [key_off]. rewrite bytes_eqb_refl. pose proof (key_off_ge r k (off + 1 + lenN x)). lia.
+Qed.
+
+(* since fix a3dd5d3 every duplicate-free key set is ordered correctly *)
+Lemma multisig_unambiguous m keys : m <= 16 -> lenL keys <= 16 -> Forall wf_key keys -> NoDup keys ->
+  unambiguous (multisig_script m keys) keys.
+Proof.
+  intros Hm Hn Hk Hnd. exists (fun k => key_off keys k 1). split; [|apply key_off_sorted; exact Hnd].
+  intros k Hin. unfold key_position. rewrite tokenize_multisig by assumption.
+  destruct (small_int_is_op m Hm) as (_ & _ & Hop).
+  cbn [push_index]. unfold is_push_op.
+  replace ((1 <=? n8 (small_int m)) && (n8 (small_int m) <=? 78)) with false by lia. cbn [andb].
+  assert (Hts : tok_size (small_int m, []) = 1).
+  { unfold tok_size. cbv zeta. cbn [fst snd]. rewrite lenN_nil.
+    replace ((1 <=? n8 (small_int m)) && (n8 (small_int m) <=? 75)) with false by lia.
+    replace (n8 (small_int m) =? 76) with false by lia. replace (n8 (small_int m) =? 77) with false by lia.
+    replace (n8 (small_int m) =? 78) with false by lia. reflexivity. }
+  rewrite push_index_keys by assumption. f_equal. f_equal.
+  rewrite N.add_0_l. exact Hts.
 Qed.
 
 Record ms_ok (m : N) (keys pks : list bytes) (sgf : bytes -> bytes) : Prop := {
   mo_m : 1 <= m /\ m <= 16;
   mo_n : lenL keys <= 16;
   mo_keys : Forall wf_key keys;
-  mo_unamb : unambiguous (multisig_script m keys) keys;
+  mo_nodupk : NoDup keys;
   mo_nodup : NoDup pks;
   mo_incl : incl pks keys;
   mo_count : m = lenL pks;
@@ -618,7 +671,8 @@ Definition ms_ordered (sgf : bytes -> bytes) (keys pks : list bytes) : list byte
 Lemma ms_order m keys pks sgf : ms_ok m keys pks sgf ->
   extract_key_order (multisig_script m keys) (ms_pairs sgf pks) = Some (ms_ordered sgf keys pks).
 Proof.
-  intros [Hm Hn Hk (pos & Hpos & Hs) Hnd Hincl Hc _].
+  intros [Hm Hn Hk Hndk Hnd Hincl Hc _].
+  destruct (multisig_unambiguous m keys (proj2 Hm) Hn Hk Hndk) as (pos & Hpos & Hs).
   eapply extract_key_order_sorted with (pos := pos) (n := lenL keys); try eassumption.
   apply ms_stats_multisig; [lia | exact Hn | exact Hk].
 Qed.
@@ -632,7 +686,7 @@ Qed.
 Lemma ms_ordered_length m keys pks sgf : ms_ok m keys pks sgf -> length (ms_ordered sgf keys pks) = length pks.
 Proof.
   intro H. unfold ms_ordered. rewrite map_length.
-  pose proof (unambiguous_nodup _ _ (mo_unamb _ _ _ _ H)) as Hndk.
+  pose proof (mo_nodupk _ _ _ _ H) as Hndk.
   apply Nat.le_antisymm.
   - apply NoDup_incl_length; [apply NoDup_filter; exact Hndk|].
     intros k Hk. apply filter_In in Hk as [_ Hk]. apply memb_In in Hk. exact Hk.
@@ -663,7 +717,7 @@ Section Templates.
     intros H Hv Hex. unfold eval_multisig.
     destruct H as [Hm Hn Hk Hun Hnd Hincl Hc Hs].
     rewrite ms_parse_multisig by (try assumption; lia).
-    apply checkmultisig_accepts; try assumption. eapply unambiguous_nodup; eauto.
+    apply checkmultisig_accepts; assumption.
   Qed.
 
   (* ---- P2PKH ---- *)
@@ -960,13 +1014,14 @@ Section TemplatesTap.
 
   Lemma tap_key_final (i : pin2) q :
     is_final2 i = false -> nonempty (q_tapkeysig i) = true -> lenN (q_tapkeysig i) <= 65 ->
+    tap_sig_ok (pi_sht (q_base i)) (q_tapkeysig i) = true ->
     length q = 32%nat -> chk ATapKey [] q (q_tapkeysig i) = true ->
     taproot_final i = OcOk (vector [q_tapkeysig i]) /\
     read_witness (vector [q_tapkeysig i]) = Some [q_tapkeysig i] /\
     satisfies chk commit (p2tr_script q) [] [q_tapkeysig i] = true.
   Proof.
-    intros Hf Hne Hl Hq Hc. split; [|split].
-    - unfold taproot_final. rewrite Hf, Hne. reflexivity.
+    intros Hf Hne Hl Hty Hq Hc. split; [|split].
+    - unfold taproot_final. cbv zeta. rewrite Hf, Hne, Hty. reflexivity.
     - apply (read_witness_ser chk commit); [repeat constructor; lia | cbn; lia].
     - unfold satisfies. destruct (class_p2tr q Hq) as (E1 & E2 & E3 & E4).
       rewrite E1, E2, E3, E4. cbn [orb nonempty negb andb eval_taproot]. exact Hc.
@@ -976,18 +1031,19 @@ Section TemplatesTap.
     is_final2 i = false -> q_tapkeysig i = [] ->
     q_tapleafs i = [l] -> tl_script l = tapleaf_checksig_script pk -> length pk = 32%nat ->
     q_tapsigs i = [mk_tsig pk sg (tapleaf_hash l)] ->
+    tap_sig_ok (pi_sht (q_base i)) sg = true ->
     lenN sg <= 65 -> lenN (tl_cb l) <= 10000 -> length q = 32%nat ->
     commit (tl_cb l) (tl_script l) q = true -> chk ATapLeaf (tl_script l) pk sg = true ->
     let w := [sg; tl_script l; tl_cb l] in
     taproot_final i = OcOk (vector w) /\ read_witness (vector w) = Some w /\
     satisfies chk commit (p2tr_script q) [] w = true.
   Proof.
-    intros Hf Hk Hl Hs Hpk Hts Hsg Hcb Hq Hcm Hc w.
+    intros Hf Hk Hl Hs Hpk Hts Hty Hsg Hcb Hq Hcm Hc w.
     assert (Hsl : lenN (tl_script l) = 34).
     { rewrite Hs. unfold tapleaf_checksig_script. rewrite lenN_cons, lenN_app. unfold lenN at 1. rewrite Hpk. reflexivity. }
     split; [|split].
-    - unfold taproot_final. rewrite Hf, Hk, Hts, Hl. cbn [nonempty filter map ts_leaf ts_sig].
-      rewrite bytes_eqb_refl. reflexivity.
+    - unfold taproot_final. cbv zeta. rewrite Hf, Hk, Hts, Hl. cbn [nonempty filter ts_leaf].
+      rewrite bytes_eqb_refl. cbn [forallb ts_sig map]. rewrite Hty. reflexivity.
     - apply (read_witness_ser chk commit); [repeat constructor; lia | cbn; lia].
     - unfold satisfies. destruct (class_p2tr q Hq) as (E1 & E2 & E3 & E4).
       rewrite E1, E2, E3, E4. cbn [orb nonempty negb andb]. unfold w, eval_taproot. rewrite Hcm.
@@ -1210,12 +1266,13 @@ Proof.
   intros H Ht Hi; inversion H; subst. cbn [t_ins]. eapply extract_ins_nth; eauto.
 Qed.
 
-(* v2: Extract and UnsignedTx are two routines; they agree on an input exactly when ... *)
-Definition agree_in2 (i : pin2) : Prop :=
-  q_seq i <> 0 /\
-  osome (q_iss_entropy i) = ((0 <? q_iss_value i) || osome (q_iss_vcommit i)) /\
-  q_pegwit i = None /\
-  (q_index i = MinusOne \/ q_index i <= OutpointIndexMask).
+(* v2: Extract and UnsignedTx are two routines; since fix 0eaca09 they apply the same sequence
+   default, issuance test, null amount and peg-in flag.  The only remaining difference is
+   that UnsignedTx goes through NewTxInput, which masks the outpoint index with
+   OutpointIndexMask unless it is 0xffffffff, while Extract copies it: the two agree on every
+   index an Elements outpoint can carry (the same range as wf_in of Model/Tx.v). *)
+Definition outpoint_index_ok (i : pin2) : Prop :=
+  q_index i = MinusOne \/ q_index i <= OutpointIndexMask.
 
 Lemma land_index_mask x : x <= OutpointIndexMask -> N.land x OutpointIndexMask = x.
 Proof.
@@ -1223,18 +1280,16 @@ Proof.
   apply N.mod_small. change (N.ones 30) with 1073741823 in H. change (2 ^ 30) with 1073741824. lia.
 Qed.
 
-Lemma extract_in2_strip i x : agree_in2 i -> extract_in2 i = Some x -> strip_in x = unsigned_in2 i.
+Lemma extract_in2_strip i x : outpoint_index_ok i -> extract_in2 i = Some x -> strip_in x = unsigned_in2 i.
 Proof.
-  intros (Hs & Hi & Hp & Hx) H. unfold extract_in2 in H.
+  intros Hx H. unfold extract_in2 in H.
   destruct (match pi_fwit (q_base i) with Some fw => match read_witness fw with Some w => Some w | None => None end | None => Some [] end) as [w|]; [|discriminate].
   inversion H; subst. unfold strip_in, unsigned_in2. cbn [in_hash in_index in_seq in_pegin in_iss].
-  rewrite Hp, <- Hi. cbn [osome].
-  replace (q_seq i =? 0) with false by lia.
   f_equal. destruct Hx as [E|E]; [rewrite E; reflexivity|].
   destruct (q_index i =? MinusOne); [reflexivity|]. symmetry. apply land_index_mask. exact E.
 Qed.
 
-Lemma extract_ins2_strip : forall l r, Forall agree_in2 l -> extract_ins2 l = Some r ->
+Lemma extract_ins2_strip : forall l r, Forall outpoint_index_ok l -> extract_ins2 l = Some r ->
   map strip_in r = map unsigned_in2 l.
 Proof.
   induction l as [|i l IH]; intros r Hf H; cbn [extract_ins2] in H.
@@ -1245,10 +1300,7 @@ Proof.
     inversion H; subst. cbn [map]. rewrite (extract_in2_strip i x Hi E), (IH xs Hl eq_refl). reflexivity.
 Qed.
 
-Lemma strip_unsigned_in2 i : strip_in (unsigned_in2 i) = unsigned_in2 i.
-Proof. reflexivity. Qed.
-
-Theorem extract2_eq_unsigned_partial p t : Forall agree_in2 (q_ins p) ->
+Theorem extract2_eq_unsigned p t : Forall outpoint_index_ok (q_ins p) ->
   extract2 p = OcOk t -> strip_tx t = strip_tx (unsigned_tx2 p).
 Proof.
   intros Hf. unfold extract2. destruct (sanity2 p); cbn [negb]; [|discriminate].
@@ -1258,67 +1310,90 @@ Proof.
   rewrite (extract_ins2_strip _ _ Hf E). rewrite map_map. reflexivity.
 Qed.
 
-(* the full statement is false of the code as it is: three independent witnesses *)
+(* the packets that witnessed the three disagreements before fix 0eaca09 (sequence 0, amount
+   without entropy, peg-in witness) now extract to the signed-over transaction *)
 Definition rf_wu : txout := mk_out (x01 :: repeat x07 32) (x01 :: repeat x00 7 ++ [x09]) (x51 :: x20 :: repeat x05 32) [x00] [] [].
 Definition rf_base : pin := mk_pin None (Some rf_wu) [] 0 None None None (Some [x01; x01; x2a]).
 Definition rf_in (seq : N) (issv : N) (ent : option bytes) (peg : option (list bytes)) : pin2 :=
   mk_pin2 rf_base [x0b] 0 seq 0 0 issv None None None 0 None None ent [] [] peg [] [] [] [] [].
 Definition rf_pset (i : pin2) : pset2 := mk_pset2 2 None 0 [i] [].
 
-Theorem extract2_sequence_refuted :
-  exists p t, extract2 p = OcOk t /\ strip_tx t <> strip_tx (unsigned_tx2 p) /\
-              map in_seq (t_ins t) = [0] /\ map in_seq (t_ins (unsigned_tx2 p)) = [u32max].
+Example extract2_sequence_agrees :
+  exists t, extract2 (rf_pset (rf_in 0 0 None None)) = OcOk t /\
+            strip_tx t = strip_tx (unsigned_tx2 (rf_pset (rf_in 0 0 None None))) /\ map in_seq (t_ins t) = [u32max].
+Proof. eexists. split; [vm_compute; reflexivity | split; vm_compute; reflexivity]. Qed.
+
+Example extract2_issuance_agrees :
+  exists t, extract2 (rf_pset (rf_in 5 7 None None)) = OcOk t /\
+            strip_tx t = strip_tx (unsigned_tx2 (rf_pset (rf_in 5 7 None None))) /\
+            map (fun i => osome (in_iss i)) (t_ins t) = [false].
+Proof. eexists. split; [vm_compute; reflexivity | split; vm_compute; reflexivity]. Qed.
+
+Example extract2_token_only_issuance_agrees :
+  exists t, extract2 (rf_pset (rf_in 5 0 (Some (repeat x06 32)) None)) = OcOk t /\
+            strip_tx t = strip_tx (unsigned_tx2 (rf_pset (rf_in 5 0 (Some (repeat x06 32)) None))) /\
+            map (fun i => match in_iss i with Some s => Tx.iss_amount s | None => [] end) (t_ins t) = [[x00]].
+Proof. eexists. split; [vm_compute; reflexivity | split; vm_compute; reflexivity]. Qed.
+
+Example extract2_pegin_agrees :
+  exists t, extract2 (rf_pset (rf_in 5 0 None (Some [[x01]]))) = OcOk t /\
+            strip_tx t = strip_tx (unsigned_tx2 (rf_pset (rf_in 5 0 None (Some [[x01]])))) /\
+            map in_pegin (t_ins t) = [true].
+Proof. eexists. split; [vm_compute; reflexivity | split; vm_compute; reflexivity]. Qed.
+
+(* the index hypothesis is about values outside the outpoint range only *)
+Example extract2_index_flag_bits :
+  let i := mk_pin2 rf_base [x0b] 0x80000005 5 0 0 0 None None None 0 None None None [] [] None [] [] [] [] [] in
+  exists t, extract2 (rf_pset i) = OcOk t /\ map in_index (t_ins t) = [0x80000005] /\
+            map in_index (t_ins (unsigned_tx2 (rf_pset i))) = [5].
+Proof. eexists. split; [vm_compute; reflexivity | split; vm_compute; reflexivity]. Qed.
+
+(* taproot finalization (after fix 509b4c2) requires a signature for the leaf it finalizes
+   and the declared hash type on every signature it uses *)
+Definition taproot_requires (i : pin2) : Prop :=
+  let sht := pi_sht (q_base i) in
+  if nonempty (q_tapkeysig i) then tap_sig_ok sht (q_tapkeysig i) = true
+  else exists l r, q_tapleafs i = l :: r /\
+         let ms := filter (fun s => bytes_eqb (ts_leaf s) (tapleaf_hash l)) (q_tapsigs i) in
+         ms <> [] /\ forall s, In s ms -> tap_sig_ok sht (ts_sig s) = true.
+
+Lemma taproot_final_inv i w : taproot_final i = OcOk w -> taproot_requires i.
 Proof.
-  exists (rf_pset (rf_in 0 0 None None)). eexists. split; [vm_compute; reflexivity|].
-  split; [vm_compute; discriminate | split; vm_compute; reflexivity].
+  unfold taproot_final, taproot_requires. cbv zeta. destruct (is_final2 i); [discriminate|].
+  destruct (nonempty (q_tapkeysig i)).
+  - destruct (tap_sig_ok _ _); [reflexivity | discriminate].
+  - destruct (nonempty (q_tapsigs i)); [|discriminate].
+    destruct (q_tapleafs i) as [|l r]; [discriminate|].
+    destruct (forallb _ _) eqn:Ef; cbn [negb]; [|discriminate].
+    destruct (filter _ (q_tapsigs i)) as [|s0 ms] eqn:Em; [discriminate|].
+    intros _. exists l, r. split; [reflexivity|]. rewrite Em. split; [discriminate|].
+    intros s Hs. rewrite forallb_forall in Ef. apply Ef. exact Hs.
 Qed.
 
-Theorem extract2_issuance_refuted :
-  exists p t, extract2 p = OcOk t /\ strip_tx t <> strip_tx (unsigned_tx2 p) /\
-              map (fun i => osome (in_iss i)) (t_ins t) = [true] /\
-              map (fun i => osome (in_iss i)) (t_ins (unsigned_tx2 p)) = [false].
+Theorem finalize2_taproot_requires p k p' i : finalize2 p k = (p', StOk) -> nth_error (q_ins p) k = Some i ->
+  osome (pi_wu (q_base i)) && is_taproot i = true -> taproot_requires i.
 Proof.
-  exists (rf_pset (rf_in 5 7 None None)). eexists. split; [vm_compute; reflexivity|].
-  split; [vm_compute; discriminate | split; vm_compute; reflexivity].
+  unfold finalize2. intros H Hi Ht. rewrite Hi, Ht in H.
+  destruct (taproot_final i) as [w| |] eqn:E; try discriminate. eapply taproot_final_inv; eauto.
 Qed.
 
-Theorem extract2_pegin_refuted :
-  exists p t, extract2 p = OcOk t /\ strip_tx t <> strip_tx (unsigned_tx2 p) /\
-              map in_pegin (t_ins t) = [true] /\ map in_pegin (t_ins (unsigned_tx2 p)) = [false].
-Proof.
-  exists (rf_pset (rf_in 5 0 None (Some [[x01]]))). eexists. split; [vm_compute; reflexivity|].
-  split; [vm_compute; discriminate | split; vm_compute; reflexivity].
-Qed.
-
-Theorem extract2_eq_unsigned_refuted :
-  exists p t, extract2 p = OcOk t /\ strip_tx t <> strip_tx (unsigned_tx2 p).
-Proof. destruct extract2_sequence_refuted as (p & t & H1 & H2 & _). exists p, t. split; assumption. Qed.
-
-(* taproot finalization checks neither the number of signatures for the leaf it finalizes
-   nor the hash type of the signatures: witnesses *)
+(* the packets that witnessed the two taproot defects before the fix are now refused *)
 Definition rf_leaf : tleaf := mk_tleaf (tapleaf_checksig_script (repeat x03 32)) 0xc4 (xc4 :: repeat x02 32).
 Definition rf_tap_in (sht : N) (keysig : bytes) (sigs : list tsig) (leafs : list tleaf) : pin2 :=
   mk_pin2 (mk_pin None (Some rf_wu) [] sht None None None None)
           [x0b] 0 5 0 0 0 None None None 0 None None None [] [] None keysig sigs leafs [] [].
 
-(* a single leaf, one signature for some other leaf: finalization succeeds and the witness
-   holds no signature at all *)
-Theorem taproot_too_few_refuted :
-  exists p p' i', finalize2 p 0 = (p', StOk) /\ nth_error (q_ins p') 0 = Some i' /\
-    pi_fwit (q_base i') = Some (vector [tl_script rf_leaf; tl_cb rf_leaf]).
-Proof.
-  exists (rf_pset (rf_tap_in 0 [] [mk_tsig (repeat x03 32) (repeat x04 64) (repeat x09 32)] [rf_leaf])).
-  eexists. eexists. split; [vm_compute; reflexivity | split; vm_compute; reflexivity].
-Qed.
+Example taproot_other_leaf_refused :
+  snd (finalize2 (rf_pset (rf_tap_in 0 [] [mk_tsig (repeat x03 32) (repeat x04 64) (repeat x09 32)] [rf_leaf])) 0) = StErr.
+Proof. vm_compute. reflexivity. Qed.
 
-(* declared SIGHASH_SINGLE (3), key-path signature of type ALL|ANYONECANPAY (0x81): accepted *)
-Theorem taproot_sighash_mismatch_refuted :
-  exists p p', pi_sht (q_base (rf_tap_in 3 (repeat x04 64 ++ [x81]) [] [])) = 3 /\
-    finalize2 p 0 = (p', StOk) /\ q_ins p = [rf_tap_in 3 (repeat x04 64 ++ [x81]) [] []].
-Proof.
-  exists (rf_pset (rf_tap_in 3 (repeat x04 64 ++ [x81]) [] [])). eexists.
-  split; [reflexivity | split; [vm_compute; reflexivity | reflexivity]].
-Qed.
+Example taproot_wrong_hash_type_refused :
+  snd (finalize2 (rf_pset (rf_tap_in 3 (repeat x04 64 ++ [x81]) [] [])) 0) = StErr.
+Proof. vm_compute. reflexivity. Qed.
+
+Example taproot_default_counts_as_all :
+  snd (finalize2 (rf_pset (rf_tap_in 1 (repeat x04 64) [] [])) 0) = StOk.
+Proof. vm_compute. reflexivity. Qed.
 
 (* ------------------------------------------------------------------ *)
 (* any signing order, and the serialize/parse hop, give the same final scripts *)
@@ -1395,17 +1470,17 @@ Section Digest.
     intro H. unfold chk_dig. rewrite (digest_frame t (p0_tx p) (extract0_eq_unsigned p t H)). reflexivity.
   Qed.
 
-  Theorem extracted_checks_as_signed2_partial p t k amount : Forall agree_in2 (q_ins p) ->
+  Theorem extracted_checks_as_signed2 p t k amount : Forall outpoint_index_ok (q_ins p) ->
     extract2 p = OcOk t -> chk_dig t k amount = chk_dig (unsigned_tx2 p) k amount.
   Proof.
     intros Ha H. unfold chk_dig.
-    rewrite (digest_frame t (unsigned_tx2 p) (extract2_eq_unsigned_partial p t Ha H)). reflexivity.
+    rewrite (digest_frame t (unsigned_tx2 p) (extract2_eq_unsigned p t Ha H)). reflexivity.
   Qed.
 End Digest.
 
 (* ------------------------------------------------------------------ *)
-(* the key-set hypothesis is needed: first-occurrence ordering misorders *)
-(* an adversarially chosen key set (model as the code is)                *)
+(* the key set that first-occurrence ordering (before fix a3dd5d3) misordered: *)
+(* key 3's bytes also occur inside <key 1> <push opcode of key 2>            *)
 (* ------------------------------------------------------------------ *)
 Definition amb_k3 : bytes := x03 :: repeat x07 31 ++ [x21].
 Definition amb_k1 : bytes := x02 :: firstn 32 amb_k3.
@@ -1416,15 +1491,10 @@ Definition amb_chk : salgo -> bytes -> bytes -> bytes -> bool := fun _ _ pk sg =
 Definition amb_in : pin :=
   mk_pin None None (ms_pairs amb_sgf [amb_k2; amb_k3]) 1 (Some (multisig_script 2 amb_keys)) None None None.
 
-Theorem ambiguous_keys_refuted :
+Example overlapping_keys_satisfied :
   exists ss, legacy_sigscript false amb_in = OcOk ss /\
-    (forall k, In k [amb_k2; amb_k3] -> amb_chk ALegacy (multisig_script 2 amb_keys) k (amb_sgf k) = true) /\
-    satisfies amb_chk (fun _ _ _ => true) (p2sh_script (hash160 (multisig_script 2 amb_keys))) ss [] = false.
-Proof.
-  eexists. split; [vm_compute; reflexivity|]. split.
-  - intros k [<-|[<-|[]]]; vm_compute; reflexivity.
-  - vm_compute. reflexivity.
-Qed.
+    satisfies amb_chk (fun _ _ _ => true) (p2sh_script (hash160 (multisig_script 2 amb_keys))) ss [] = true.
+Proof. eexists. split; [vm_compute; reflexivity|]. vm_compute. reflexivity. Qed.
 
 (* ------------------------------------------------------------------ *)
 (* non-vacuity: the hypotheses of the template theorems are satisfiable *)
@@ -1433,7 +1503,6 @@ Definition ex_k1 : bytes := x02 :: repeat x11 32.
 Definition ex_k2 : bytes := x03 :: repeat x22 32.
 Definition ex_k3 : bytes := x02 :: repeat x33 32.
 Definition ex_keys : list bytes := [ex_k1; ex_k2; ex_k3].
-Definition ex_pos (k : bytes) : N := match bindex_of k (multisig_script 2 ex_keys) with Some p => p | None => 0 end.
 
 Example ex_ms_ok : ms_ok 2 ex_keys [ex_k3; ex_k1] amb_sgf.
 Proof.
@@ -1441,9 +1510,8 @@ Proof.
   - lia.
   - vm_compute. discriminate.
   - repeat constructor; left; reflexivity.
-  - exists ex_pos. split.
-    + intros k [<-|[<-|[<-|[]]]]; vm_compute; reflexivity.
-    + repeat constructor; vm_compute; reflexivity.
+  - constructor; [cbn; intros [H|[H|[]]]; discriminate H|].
+    constructor; [cbn; intros [H|[]]; discriminate H | constructor; [intros [] | constructor]].
   - constructor; [cbn; intros [H|[]]; discriminate H | constructor; [intros [] | constructor]].
   - intros k [<-|[<-|[]]]; cbn; tauto.
   - reflexivity.
@@ -1463,4 +1531,89 @@ Proof.
   - intros k [<-|[<-|[]]]; vm_compute; reflexivity.
   - intros k k' Hk Hk' H. unfold amb_chk in H. apply bytes_eqb_eq in H. unfold amb_sgf in H.
     apply app_inj_tail in H as [H _]. congruence.
+Qed.
+
+(* ------------------------------------------------------------------ *)
+(* signature admission: any sequence of distinct signers is admitted   *)
+(* and the packet then holds the signatures in signing order           *)
+(* ------------------------------------------------------------------ *)
+Fixpoint add_sigs0 (p : pset0) (k : nat) (ops : list (bytes * bytes)) : pset0 * rstat :=
+  match ops with
+  | [] => (p, StOk)
+  | (pk, sg) :: r => match add_partial_sig0 p k sg pk true with
+                     | (p', StOk) => add_sigs0 p' k r
+                     | bad => bad
+                     end
+  end.
+
+Lemma lupd_lupd {A} (l : list A) k f g : lupd (lupd l k f) k g = lupd l k (fun x => g (f x)).
+Proof.
+  revert k. induction l as [|a l IH]; intros [|k]; cbn [lupd]; try reflexivity. rewrite IH. reflexivity.
+Qed.
+
+Lemma lupd_ext_at {A} (l : list A) k f g x : nth_error l k = Some x -> f x = g x -> lupd l k f = lupd l k g.
+Proof.
+  revert k. induction l as [|a l IH]; intros [|k] H E; cbn in *; try discriminate.
+  - inversion H; subst. rewrite E. reflexivity.
+  - f_equal. apply IH; assumption.
+Qed.
+
+Lemma lupd_id_at {A} (l : list A) k f x : nth_error l k = Some x -> f x = x -> lupd l k f = l.
+Proof.
+  revert k. induction l as [|a l IH]; intros [|k] H E; cbn in *; try discriminate; try reflexivity.
+  - inversion H; subst. rewrite E. reflexivity.
+  - f_equal. apply IH; assumption.
+Qed.
+
+Lemma forallb_lupd {A} (P : A -> bool) (l : list A) k f :
+  forallb P l = true -> (forall x, P x = true -> P (f x) = true) -> forallb P (lupd l k f) = true.
+Proof.
+  revert k. induction l as [|a l IH]; intros [|k] H Hf; cbn [lupd forallb] in *; try reflexivity;
+    apply andb_true_iff in H as [H1 H2]; apply andb_true_iff; split; auto.
+Qed.
+
+Lemma sane_in0_set_sigs v i : sane_in0 (set_sigs v i) = sane_in0 i.
+Proof. destruct i as [a1 a2 a3 a4 a5 a6 a7 a8]; reflexivity. Qed.
+Lemma admit_checks_set_sigs v i pk b h n : admit_checks (set_sigs v i) pk b h n = admit_checks i pk b h n.
+Proof. destruct i as [a1 a2 a3 a4 a5 a6 a7 a8]; reflexivity. Qed.
+
+Lemma has_sig_for_app i pk x : has_sig_for (set_sigs (pi_sigs i ++ [x]) i) pk = has_sig_for i pk || bytes_eqb (fst x) pk.
+Proof.
+  unfold has_sig_for. destruct i as [a1 a2 a3 a4 a5 a6 a7 a8]; cbn [pi_sigs set_sigs]. rewrite existsb_app. cbn [existsb]. rewrite orb_false_r. reflexivity.
+Qed.
+
+Theorem signing_admitted0 : forall ops p k i,
+  nth_error (p0_ins p) k = Some i -> sanity0 p = true ->
+  NoDup (map fst ops) ->
+  (forall pk, In pk (map fst ops) -> has_sig_for i pk = false) ->
+  (forall pk sg, In (pk, sg) ops ->
+     admit_checks i pk (osome (nth_error (t_ins (p0_tx p)) k))
+       (match nth_error (t_ins (p0_tx p)) k with Some x => in_hash x | None => [] end)
+       (match nth_error (t_ins (p0_tx p)) k with Some x => in_index x | None => 0 end) = OcOk tt) ->
+  add_sigs0 p k ops = (with_in0 p k (fun i => set_sigs (pi_sigs i ++ ops) i), StOk).
+Proof.
+  induction ops as [|[pk sg] r IH]; intros p k i Hi Hsan Hnd Hnew Hadm.
+  - cbn [add_sigs0]. f_equal. unfold with_in0. destruct p as [t ins]. cbn [p0_tx p0_ins] in *. f_equal.
+    symmetry. apply (lupd_id_at ins k _ i Hi). rewrite app_nil_r. destruct i as [a1 a2 a3 a4 a5 a6 a7 a8]; reflexivity.
+  - cbn [add_sigs0]. unfold add_partial_sig0. cbn [negb]. rewrite Hi.
+    rewrite (Hnew pk) by (left; reflexivity).
+    rewrite (Hadm pk sg) by (left; reflexivity).
+    set (p' := with_in0 p k (fun i0 => set_sigs (pi_sigs i0 ++ [(pk, sg)]) i0)).
+    assert (Hsan' : sanity0 p' = true).
+    { unfold sanity0, p', with_in0 in *. cbn [p0_tx p0_ins]. apply andb_true_iff in Hsan as [H1 H2].
+      rewrite H1. cbn [andb]. apply forallb_lupd; [exact H2|]. intros x Hx. rewrite sane_in0_set_sigs. exact Hx. }
+    rewrite Hsan'.
+    set (i' := set_sigs (pi_sigs i ++ [(pk, sg)]) i).
+    assert (Hi' : nth_error (p0_ins p') k = Some i').
+    { unfold p', with_in0, i'. cbn [p0_ins].
+      exact (nth_error_lupd _ _ (fun i0 => set_sigs (pi_sigs i0 ++ [(pk, sg)]) i0) i Hi). }
+    inversion Hnd as [|? ? Hpk Hnd']; subst.
+    rewrite (IH p' k i' Hi' Hsan' Hnd').
+    + f_equal. unfold p', with_in0. cbn [p0_tx p0_ins]. f_equal. rewrite lupd_lupd.
+      apply (lupd_ext_at _ _ _ _ i Hi). destruct i as [a1 a2 a3 a4 a5 a6 a7 a8]; cbn [set_sigs pi_sigs]. rewrite <- app_assoc. reflexivity.
+    + intros pk' Hin. unfold i'. rewrite has_sig_for_app. cbn [fst].
+      rewrite (Hnew pk') by (right; exact Hin). cbn [orb].
+      destruct (bytes_eqb pk pk') eqn:E; [|reflexivity]. apply bytes_eqb_eq in E. subst pk'. contradiction.
+    + intros pk' sg' Hin. unfold i'. rewrite admit_checks_set_sigs. unfold p', with_in0. cbn [p0_tx].
+      apply (Hadm pk' sg'). right. exact Hin.
 Qed.
